@@ -245,14 +245,19 @@ def simulate(program, deselected=None):
                         if o == "nest":
                             # context.execute_steps(): sub-steps run with their step hooks until
                             # the first one that does not pass (the caller catches the error)
-                            for sub in s["sub"]:
-                                sub_layer = Layer("substep", (name, sub["uid"]))
-                                hook("before_step", sub["uid"], sub_layer)
-                                if not sub_layer.hook_failed:
-                                    ref.calls.append((name, sub["uid"]))
-                                hook("after_step", sub["uid"], sub_layer)
-                                if sub_layer.hook_failed or sub["o"] != "pass":
-                                    break
+                            def run_subs(subs):
+                                for sub in subs:
+                                    sub_layer = Layer("substep", (name, sub["uid"]))
+                                    hook("before_step", sub["uid"], sub_layer)
+                                    if not sub_layer.hook_failed:
+                                        ref.calls.append((name, sub["uid"]))
+                                        if sub["o"] == "nest":
+                                            # a sub-step that executes steps itself (and catches their failure)
+                                            run_subs(sub["sub"])
+                                    hook("after_step", sub["uid"], sub_layer)
+                                    if sub_layer.hook_failed or sub["o"] not in ("pass", "nest"):
+                                        break
+                            run_subs(s["sub"])
                         status = step_status_for(o, wip)
                     else:
                         status = "hook_error"
